@@ -350,7 +350,7 @@ def ob_anf_order(r, tier, seed, depth, forms, top):
     W = e2.fresh_world(CRATES)
     LF = W.tt.find_adt(['lift', 'LiftFn'], 'compiler'); LFILE = W.tt.find_adt(['lift', 'LiftFile'], 'compiler')
     AFN = W.tt.find_adt(['anf', 'Fn'], 'compiler')
-    r.bounds = 'Lift-IR bodies `f(A1, A2)` / boolean tops with sub-expressions lazily chosen to depth %d among %s; effectful leaves are calls to distinct functions' % (depth, forms)
+    r.bounds = ('Lift-IR bodies `f(A)` with' if top == 'call1' else 'Lift-IR bodies `f(A1, A2)` / boolean tops with') + ' sub-expressions lazily chosen to depth %d among %s; effectful leaves are calls to distinct functions' % (depth, forms)
     r.assumptions = ['oracle: source trace = left-to-right, innermost first; `&&`/`||` run their right operand only when the left one does not decide; if/while bodies are conditional sub-traces; every call exactly once',
                      'GlobalAnfEnv::from_lift_env receives an opaque environment (no enum/struct look-ups on these forms)']
     def entry(ex):
@@ -358,6 +358,8 @@ def ob_anf_order(r, tier, seed, depth, forms, top):
         if top == 'call':
             a1, t1 = g.expr(depth); a2, t2 = g.expr(depth)
             body = g.call('f', [a1, a2]); src = t1 + t2 + [('call', 'f')]
+        elif top == 'call1':
+            a1, t1 = g.expr(depth); body = g.call('f', [a1]); src = t1 + [('call', 'f')]
         elif top == 'go': body, src = g.go_tail()
         else:
             body, src = g.boolean(depth + 1)
@@ -721,14 +723,14 @@ def obligations():
            Ob('O9.1-effect-predicate-d2', 'DCE effect predicate is sound, depth 2', ob_effect_predicate, ('quick', 'thorough'), 10, dict(depth=2))]
     obs += [Ob('O9.3-anf-order-call-d1', 'ANF keeps the source effect trace: f(A1, A2), depth 1', ob_anf_order, ('quick', 'thorough'), 3, dict(depth=1, forms=['call1', 'call2', 'callcall', 'add', 'if', 'let', 'tuple', 'while', 'whilematch', 'unitop'], top='call')),
             Ob('O9.3-anf-order-bool-d1', 'ANF keeps short-circuit evaluation of && / ||', ob_anf_order, ('quick', 'thorough'), 3, dict(depth=1, forms=['and', 'or', 'not', 'less', 'call1', 'reads'], top='bool')),
-            Ob('O9.3-anf-order-call-d2-if', 'ANF keeps the source effect trace: f(A1, A2), depth 2 over calls / + / if with && and ||', ob_anf_order, ('thorough',), 100, dict(depth=2, forms=['call1', 'add', 'if', 'and', 'or'], top='call')),
+            Ob('O9.3-anf-order-call-d2-if', 'ANF keeps the source effect trace: f(A), A of depth 2 over calls / + / if with && and ||', ob_anf_order, ('thorough',), 100, dict(depth=2, forms=['call1', 'add', 'if', 'and', 'or'], top='call1')),
             Ob('O9.3-anf-order-call-d2-let', 'ANF keeps the source effect trace: f(A1, A2), depth 2 over calls / callee expressions / let', ob_anf_order, ('thorough',), 100, dict(depth=2, forms=['call1', 'callcall', 'let'], top='call'))]
     obs += [Ob('O9.2-block-dce-2', 'block-level DCE preserves effects and the returned value: 2 statements + return', ob_block_dce, ('quick', 'thorough'), 3, dict(nstmts=2, depth=0)),
             Ob('O9.2-block-dce-3', 'block-level DCE: 3 statements + return', ob_block_dce, ('thorough',), 20, dict(nstmts=3, depth=0)),
             Ob('O9.2-block-dce-if', 'block-level DCE: 1 statement, then if/else with one assignment or call per branch, + return', ob_block_dce, ('quick', 'thorough'), 20, dict(nstmts=1, depth=1, forms=('atom', 'call', 'div'))),
             Ob('O9.2-block-dce-constif', 'block-level DCE: 1 statement, then if/else with a literal condition and 2 statements per branch, + return', ob_block_dce, ('quick', 'thorough'), 30, dict(nstmts=1, depth=1, forms=('call',), conds=('true', 'false'), branch_n=2)),
             Ob('O9.2-block-dce-switch', 'block-level DCE: 1 statement, then a value switch with two cases (+ default), + return', ob_block_dce, ('quick', 'thorough'), 30, dict(nstmts=1, depth='switch', forms=('atom', 'call'))),
-            Ob('O9.2-block-dce-if2-decl', 'block-level DCE: 2 statements (the first a declaration), then if/else, + return', ob_block_dce, ('thorough',), 200, dict(nstmts=2, depth=1, forms=('atom', 'call'), first='decl')),
+            Ob('O9.2-block-dce-if2-decl', 'block-level DCE: 2 statements (the first a declaration; initialisers are calls), then if/else, + return', ob_block_dce, ('thorough',), 200, dict(nstmts=2, depth=1, forms=('call',), first='decl')),
             Ob('O9.2-block-dce-if2-call', 'block-level DCE: 2 statements (the first a call statement), then if/else, + return', ob_block_dce, ('thorough',), 200, dict(nstmts=2, depth=1, forms=('atom', 'call'), first='call'))]
     obs += [Ob('O9.3-anf-order-arith-d1', 'ANF evaluates the operands of + - * / left to right', ob_anf_order, ('quick', 'thorough'), 3, dict(depth=1, forms=['call1', 'add', 'div', 'sub', 'mul'], top='call')),
             Ob('O9.4-go-lowering-arith-d1', 'Go lowering keeps the operand order of + - * /', ob_go_lowering, ('quick', 'thorough'), 5, dict(depth=1, forms=['call1', 'add', 'div', 'sub', 'mul'], top='call'))]
@@ -871,3 +873,8 @@ def ob_struct_literal_order(r, tier, seed):
 _c09_obl2 = obligations
 def obligations():
     return _c09_obl2() + [Ob('O9.6-struct-literal-order', 'field initialisers of a struct literal are evaluated in the order written', ob_struct_literal_order, ('quick', 'thorough'), 1, {})]
+
+_c09_obl3 = obligations
+def obligations():
+    from props import core_ob
+    return _c09_obl3() + core_ob.obligations()
